@@ -32,11 +32,11 @@ macro "iso_ring" d:term : tactic => `(tactic| (
   refine iso6_of_pattern _ _ _ _ _ _ ?_ ?_ ?_ ?_ <;> ring))
 /-- isotropic pattern with denominators -/
 macro "iso_field" : tactic => `(tactic| (
-  refine iso6_of_pattern _ _ _ _ _ _ ?_ ?_ ?_ ?_ <;> first | trivial | ring1 | (field_simp; ring1) | field_simp))
+  refine iso6_of_pattern _ _ _ _ _ _ ?_ ?_ ?_ ?_ <;> first | exact trivial | (with_reducible rfl) | ring1 | (field_simp; ring1) | field_simp))
 /-- same with denominators (the `≠ 0` / positivity facts must be in the context) -/
 macro "tensor_field" : tactic => `(tactic| (
   repeat' apply And.intro
-  all_goals first | trivial | ring1 | (field_simp; ring1) | field_simp))
+  all_goals first | exact trivial | (with_reducible rfl) | ring1 | (field_simp; ring1) | field_simp))
 
 theorem Voigt3_n2 (f0 f1 K0 K1 G0 G1 : K) :
     Gen.Voigt3_n2_all c c3 fn f0 f1 K0 K1 G0 G1
